@@ -50,19 +50,20 @@ theorem all_consumed {file : Bytes} {crs ncols : Nat} {im : List Nat} {hrow : Li
   · omega
 
 theorem loop_g {file : Bytes} {crs ncols : Nat} {im : List Nat} {hrow : List Cell} {rows : List (List Cell)}
-    (st : SettingR file crs ncols im hrow rows) (hfile : file ≠ []) :
+    (st : SettingR file crs ncols im hrow rows) (hfile : file ≠ []) {F : Nat → List Bytes → Imp} {good : Nat → Bytes → Prop}
+    (hhom : ImpHom ncols F good) (hgood : ∀ c ∈ im, ∀ cell ∈ column (values rows) c, good c cell) :
     ∀ (n : Nat) (s : DS) (q e maxrow : Nat),
-      DI file (crs * Gen.Csv.CHUNK_ROW_FACTOR * ncols) ncols im hrow rows s q e maxrow →
+      DI F file (crs * Gen.Csv.CHUNK_ROW_FACTOR * ncols) ncols im hrow rows s q e maxrow →
       mu rows ncols s.offs q maxrow ≤ n →
       ∀ fuel, n + 1 ≤ fuel →
         ∃ s', whileE (dguard file) (driverStep file (crs * Gen.Csv.CHUNK_ROW_FACTOR * ncols) ncols im) fuel s = .ok s' ∧
-          s'.rows = (rows.length : Int) ∧ s'.imps = im.map (fun c => fieldOf' (column (values rows) c)) := by
+          s'.rows = (rows.length : Int) ∧ s'.imps = im.map (fun c => F c (column (values rows) c)) := by
   intro n
   induction n with
   | zero =>
     intro s q e maxrow hinv hmu fuel hfuel
     by_cases hlt : bnd hrow rows q < file.length
-    · obtain ⟨s', q', e', maxrow', _, _, hdec⟩ := driver_step_g st hinv hlt
+    · obtain ⟨s', q', e', maxrow', _, _, hdec⟩ := driver_step_g st hhom hgood hinv hlt
       omega
     · have hfresh : e = q := by
         rcases hinv.win with ⟨_, _, h⟩ | ⟨_, _, _, _, h⟩
@@ -82,7 +83,7 @@ theorem loop_g {file : Bytes} {crs ncols : Nat} {im : List Nat} {hrow : List Cel
     obtain ⟨f, rfl⟩ : ∃ f, fuel = f + 1 := ⟨fuel - 1, by omega⟩
     by_cases hlt : bnd hrow rows q < file.length
     · have hg : dguard file s = true := by simp [dguard, hinv.ci, hlt, hinv.stop]
-      obtain ⟨s', q', e', maxrow', hstep, hinv', hdec⟩ := driver_step_g st hinv hlt
+      obtain ⟨s', q', e', maxrow', hstep, hinv', hdec⟩ := driver_step_g st hhom hgood hinv hlt
       obtain ⟨s'', hloop, hr, hi⟩ := ih s' q' e' maxrow' hinv' (by omega) f (by omega)
       refine ⟨s'', ?_, hr, hi⟩
       simp only [whileE, hg, if_true, hstep]
@@ -101,18 +102,21 @@ theorem loop_g {file : Bytes} {crs ncols : Nat} {im : List Nat} {hrow : List Cel
         intro c _
         simp [doneCols]
 
-/-- **the driver with regrowth**: for every `chunk_row_size` of the supported regime and every starting budgets ≥ 1, whatever
-    number of times the index buffer and the value buffers have to be enlarged, the destination fields are exactly the
-    file's columns. The number of kernel calls is at most `records + 2 + regrowthBound`. -/
-theorem readFile_regrowth {file : Bytes} {crs ncols : Nat} {offs im : List Nat} {hrow : List Cell} {rows : List (List Cell)}
-    (st : SettingR file crs ncols im hrow rows) (hfile : file ≠ [])
+/-- **the driver with regrowth, for any importers**: `F` is a family of append homomorphisms (`ImpHom`: the indexed string
+    importer, or any schema-typed importer of C06) and every cell of every imported column is acceptable to its importer.
+    For every `chunk_row_size` of the supported regime and every starting budgets ≥ 1, whatever number of times the index
+    buffer and the value buffers have to be enlarged, importer `c` ends in the state `F c (whole column c)`: what one
+    `import_part` call on the whole column would leave. At most `records + 2 + regrowthBound` kernel calls. -/
+theorem readFile_hom {file : Bytes} {crs ncols : Nat} {offs im : List Nat} {hrow : List Cell} {rows : List (List Cell)}
+    (st : SettingR file crs ncols im hrow rows) (hfile : file ≠ []) {F : Nat → List Bytes → Imp} {good : Nat → Bytes → Prop}
+    (hhom : ImpHom ncols F good) (hgood : ∀ c ∈ im, ∀ cell ∈ column (values rows) c, good c cell)
     (hlen : offs.length = ncols + 1) (h0 : offAt offs 0 = 0) (hbud : ∀ c, c < ncols → offAt offs c < offAt offs (c + 1))
     (fuel : Nat) (hfuel : rows.length + 2 + regrowthBound rows ncols offs (crs * Gen.Csv.CHUNK_ROW_FACTOR) ≤ fuel) :
-    ∃ calls, readFile file crs ncols offs im (im.map (fun _ => ({ kind := .indexed } : Imp))) fuel =
-      .ok ⟨rows.length, im.map (fun c => fieldOf (column (values rows) c)), calls⟩ := by
+    ∃ calls, readFile file crs ncols offs im (im.map (fun c => F c [])) fuel =
+      .ok ⟨rows.length, im.map (fun c => F c (column (values rows) c)), calls⟩ := by
   have hsh := shape_zeros (maxrow := crs * Gen.Csv.CHUNK_ROW_FACTOR) hlen h0 (fun c hc => Nat.le_of_lt (hbud c hc))
-  have hinv0 : DI file (crs * Gen.Csv.CHUNK_ROW_FACTOR * ncols) ncols im hrow rows
-      ({ ci := 0, hasHeader := true, rows := 0, inds := zeros2 ncols (crs * Gen.Csv.CHUNK_ROW_FACTOR + 1), vals := List.replicate (offs.getLastD 0) 0, offs := offs, indsFull := false, valsFull := false, content := [], start := 0, imps := im.map (fun _ => ({ kind := .indexed } : Imp)), calls := [], stop := false } : DS)
+  have hinv0 : DI F file (crs * Gen.Csv.CHUNK_ROW_FACTOR * ncols) ncols im hrow rows
+      ({ ci := 0, hasHeader := true, rows := 0, inds := zeros2 ncols (crs * Gen.Csv.CHUNK_ROW_FACTOR + 1), vals := List.replicate (offs.getLastD 0) 0, offs := offs, indsFull := false, valsFull := false, content := [], start := 0, imps := im.map (fun c => F c []), calls := [], stop := false } : DS)
       0 0 (crs * Gen.Csv.CHUNK_ROW_FACTOR) := {
     qe := Nat.le_refl _
     el := Nat.zero_le _
@@ -127,17 +131,27 @@ theorem readFile_regrowth {file : Bytes} {crs ncols : Nat} {offs im : List Nat} 
     imps := by
       apply List.map_congr_left
       intro c _
-      simp [doneCols, values, column, fieldOf', indexOf, bytesOf, offsetsFrom]
+      simp [doneCols, values, column]
     win := Or.inl ⟨rfl, rfl, rfl⟩
     inwin := Nat.le_add_right _ _ }
   obtain ⟨s', hloop, hr, hi⟩ :=
-    loop_g st hfile (rows.length + 1 + regrowthBound rows ncols offs (crs * Gen.Csv.CHUNK_ROW_FACTOR)) _ 0 0
+    loop_g st hfile hhom hgood (rows.length + 1 + regrowthBound rows ncols offs (crs * Gen.Csv.CHUNK_ROW_FACTOR)) _ 0 0
       (crs * Gen.Csv.CHUNK_ROW_FACTOR) hinv0 (by rw [mu_eq]; exact Nat.le_refl _) fuel (by omega)
   refine ⟨s'.calls, ?_⟩
   unfold readFile
   dsimp only
   rw [hloop]
   simp only [hr, hi]
-  rfl
+
+/-- **the driver with regrowth**: for every `chunk_row_size` of the supported regime and every starting budgets ≥ 1, whatever
+    number of times the index buffer and the value buffers have to be enlarged, the destination fields are exactly the
+    file's columns. The number of kernel calls is at most `records + 2 + regrowthBound`. -/
+theorem readFile_regrowth {file : Bytes} {crs ncols : Nat} {offs im : List Nat} {hrow : List Cell} {rows : List (List Cell)}
+    (st : SettingR file crs ncols im hrow rows) (hfile : file ≠ [])
+    (hlen : offs.length = ncols + 1) (h0 : offAt offs 0 = 0) (hbud : ∀ c, c < ncols → offAt offs c < offAt offs (c + 1))
+    (fuel : Nat) (hfuel : rows.length + 2 + regrowthBound rows ncols offs (crs * Gen.Csv.CHUNK_ROW_FACTOR) ≤ fuel) :
+    ∃ calls, readFile file crs ncols offs im (im.map (fun _ => ({ kind := .indexed } : Imp))) fuel =
+      .ok ⟨rows.length, im.map (fun c => fieldOf (column (values rows) c)), calls⟩ :=
+  readFile_hom st hfile (impHom_indexed ncols) (fun _ _ _ _ => trivial) hlen h0 hbud fuel hfuel
 
 end Exetera.Csv
